@@ -49,8 +49,10 @@ Definition box_image (op : binop) (a b : Z * Z) : Z * Z :=
   let cs := [bin_value op (fst a) (snd b); bin_value op (snd a) (fst b); bin_value op (snd a) (snd b)] in
   (minl c1 cs, maxl c1 cs).
 
+(* the boxes are enumerated with the last argument outermost (itertools' multi_cartesian_product over the
+   reversed terms): above the capacity the order decides which intervals are merged first *)
 Definition boxes (op : binop) (A B : list (Z * Z)) : list (Z * Z) :=
-  flat_map (fun a => map (fun b => box_image op a b) B) A.
+  flat_map (fun b => map (fun a => box_image op a b) A) B.
 
 (* super_image of one piece: intersect the argument sets with the piece, enumerate the boxes *)
 Definition piece_boxes (cap : nat) (op : binop) (SA SB : list (Z * Z)) (p : list (Z * Z) * list (Z * Z))
